@@ -137,10 +137,18 @@ struct SeqEngine final : Engine {
     // later operations, clear() and the destructor run
     Rng br = stream(seed, S_WORKLOAD + 32);
     const bool bulk = !nonrep && br.chance(0.05);
+    // half of them "gapped": the byte values next to 0x00 and next to 0xFF (and 0x00 / 0xFF themselves now and then) are left
+    // out of the bulk insertion, so that the big node has its first and last children next to runs of empty slots - where the
+    // "nearest child at or below / at or above this byte" searches of bounded scans start or end
+    size_t bulk_pos = 0;
+    int gap_lo = 0, gap_hi = 0;
+    bool gap_00 = false, gap_ff = false;
     if (bulk) {
       pool.clear();
       deep = false;
       const size_t p = br.below(static_cast<uint64_t>(std::min(L, 8)));
+      bulk_pos = p;
+      if (br.chance(0.5)) { gap_lo = static_cast<int>(br.range(1, 60)); gap_hi = static_cast<int>(br.range(1, 60)); gap_00 = br.chance(0.25); gap_ff = br.chance(0.25); }
       for (int b = 0; b < 256; b++) { std::string k = base; k[p] = static_cast<char>(b); pool.push_back(k); }
       if (p + 1 < static_cast<size_t>(std::min(L, 8)) && br.chance(0.5))
         for (int i = 0; i < 6; i++) { std::string k = base; k[p] = static_cast<char>(br.below(256)); k[p + 1] = static_cast<char>(k[p + 1] ^ (1 + i)); pool.push_back(k); }
@@ -227,6 +235,10 @@ struct SeqEngine final : Engine {
       for (size_t i = order.size(); i > 1; i--) std::swap(order[i - 1], order[br.below(i)]);
       const size_t n = br.chance(0.7) ? order.size() : order.size() - br.below(3);
       for (size_t i = 0; i < n; i++) {
+        if (gap_lo > 0 && order[i].size() > bulk_pos) {
+          const int b = static_cast<unsigned char>(order[i][bulk_pos]);
+          if ((b >= 1 && b <= gap_lo) || (b <= 254 && b >= 255 - gap_hi) || (b == 0 && gap_00) || (b == 255 && gap_ff)) continue;
+        }
         Op o; o.kind = S_INSERT; o.key = order[i]; o.key2 = std::string(static_cast<size_t>(L), '\0');
         o.a = static_cast<int64_t>(++vid); o.b = br.range(0, 12); o.d = static_cast<int64_t>(br.below(static_cast<uint64_t>(nthreads)));
         present.insert(o.key);
